@@ -23,6 +23,7 @@ from __future__ import annotations
 
 import ast
 
+from consteval import ModuleEnv, NotConst
 from extract import emit, parse
 
 CRC = "spsdk/crypto/crc.py"
@@ -36,46 +37,31 @@ class Unknown(Exception):
     pass
 
 
-def ev(node, env):
-    """Evaluate a constant expression over ints / bytes / lists; `env`: dotted name -> value."""
-    if isinstance(node, ast.Constant) and isinstance(node.value, (int, bytes, bool)):
-        return node.value
-    if isinstance(node, ast.List):
-        return [ev(e, env) for e in node.elts]
-    if isinstance(node, (ast.Name, ast.Attribute)):
+class _Subst(ast.NodeTransformer):
+    """replace dotted names the module cannot know (attributes of imported library classes) by the constants the generator assumes"""
+
+    def __init__(self, table):
+        self.table = table
+
+    def visit_Attribute(self, node):
         d = dotted(node)
-        if d in env:
-            return env[d]
-        raise Unknown(d or ast.dump(node))
-    if isinstance(node, ast.BinOp):
-        a, b = ev(node.left, env), ev(node.right, env)
-        ops = {ast.Add: lambda: a + b, ast.Sub: lambda: a - b, ast.Mult: lambda: a * b, ast.FloorDiv: lambda: a // b,
-               ast.LShift: lambda: a << b, ast.RShift: lambda: a >> b, ast.BitOr: lambda: a | b, ast.BitAnd: lambda: a & b}
-        for k, f in ops.items():
-            if isinstance(node.op, k):
-                try:
-                    return f()
-                except Exception as exc:  # noqa: BLE001
-                    raise Unknown(str(exc))
-        raise Unknown(ast.dump(node.op))
-    if isinstance(node, ast.Call) and isinstance(node.func, ast.Name) and node.func.id == "bytes" and not node.keywords:
-        if not node.args:
-            return b""
-        if len(node.args) == 1:
-            v = ev(node.args[0], env)
-            if isinstance(v, bool):
-                raise Unknown("bytes(bool)")
-            if isinstance(v, int) and 0 <= v <= 1 << 16:
-                return bytes(v)
-            if isinstance(v, list) and all(isinstance(x, int) and 0 <= x < 256 for x in v):
-                return bytes(v)
-            if isinstance(v, bytes):
-                return v
-        raise Unknown("bytes(...)")
-    if isinstance(node, ast.Call) and isinstance(node.func, ast.Name) and node.func.id == "len" and len(node.args) == 1:
-        v = ev(node.args[0], env)
-        return len(v)
-    raise Unknown(type(node).__name__)
+        if d in self.table:
+            return ast.copy_location(ast.Constant(self.table[d]), node)
+        return self.generic_visit(node)
+
+
+def ev(node, menv, cls=None, local=None, subst=None):
+    """Evaluate a constant expression BY VALUE through tools/extract/consteval.py (module / class constants, arithmetic,
+    every spelling of bytes); `subst`: dotted library attributes -> assumed value.  Raises Unknown when it is not a constant."""
+    if subst:
+        import copy
+        node = ast.fix_missing_locations(_Subst(subst).visit(copy.deepcopy(node)))
+    try:
+        return menv.eval(node, cls=cls, local=local)
+    except NotConst as exc:
+        raise Unknown(str(exc))
+    except RecursionError:
+        raise Unknown("recursion")
 
 
 def dotted(node):
@@ -111,33 +97,50 @@ def gen_crc_table() -> None:
     rows = []
     try:
         tree = parse(CRC)
+        menv = ModuleEnv(tree)
         labels = {}
         enum = find_class(tree, "CrcAlg")
         if enum is not None:
             for st in enum.body:
-                if isinstance(st, ast.Assign) and isinstance(st.value, ast.Tuple) and len(st.value.elts) >= 2:
+                if isinstance(st, ast.Assign) and isinstance(st.targets[0], ast.Name):
                     try:
-                        labels[st.targets[0].id] = str(ast.literal_eval(st.value.elts[1]))
-                    except (ValueError, SyntaxError):
-                        pass
-        table = None
-        for st in tree.body:
-            tgt = st.targets[0] if isinstance(st, ast.Assign) else (st.target if isinstance(st, ast.AnnAssign) else None)
-            if isinstance(tgt, ast.Name) and tgt.id == "CRC_ALGORITHMS" and isinstance(st.value, ast.Dict):
-                table = st.value
-        if table is None:
-            raise Unknown("CRC_ALGORITHMS dict literal not found")
-        fields = ["polynomial", "initial_value", "final_xor", "reverse"]
+                        v = ev(st.value, menv)
+                    except Unknown:
+                        continue
+                    if isinstance(v, tuple) and len(v) >= 2 and isinstance(v[1], str):
+                        labels[st.targets[0].id] = v[1]
+        table = menv.nodes.get("CRC_ALGORITHMS")
+        hops = 0
+        while isinstance(table, ast.Name) and table.id in menv.nodes and hops < 4:   # alias of another module-level dict
+            table, hops = menv.nodes[table.id], hops + 1
+        if isinstance(table, ast.Call) and dotted(table.func) == "dict" and len(table.args) == 1 and not table.keywords:
+            table = table.args[0]
+        if isinstance(table, ast.Call) and isinstance(table.func, ast.Name) and not table.args and not table.keywords:
+            # built by a module-level helper without arguments whose body is `return {...}`: inline it (one level)
+            helper = next((st for st in tree.body if isinstance(st, ast.FunctionDef) and st.name == table.func.id), None)
+            body = [st for st in (helper.body if helper else []) if not (isinstance(st, ast.Expr) and isinstance(st.value, ast.Constant))]
+            if len(body) == 1 and isinstance(body[0], ast.Return) and body[0].value is not None:
+                table = body[0].value
+        if not isinstance(table, ast.Dict):
+            raise Unknown("CRC_ALGORITHMS dict display not found")
+        # field order of the CrcConfig dataclass (for positional arguments)
+        cfg = find_class(tree, "CrcConfig")
+        fields = [st.target.id for st in (cfg.body if cfg is not None else []) if isinstance(st, ast.AnnAssign) and isinstance(st.target, ast.Name)]
+        want = ["polynomial", "initial_value", "final_xor", "reverse"]
+        if sorted(fields) != sorted(want):
+            raise Unknown(f"CrcConfig fields {fields}")
         for k, v in zip(table.keys, table.values):
-            name = (dotted(k) or "?").split(".")[-1]
+            name = (dotted(k) or "?").split(".")[-1] if k is not None else "?"
+            if isinstance(v, ast.Name) and v.id in menv.nodes:          # entry built beforehand: CRC32_CFG = CrcConfig(...)
+                v = menv.nodes[v.id]
             if not (isinstance(v, ast.Call) and (dotted(v.func) or "").endswith("CrcConfig")):
                 raise Unknown(f"entry {name} is not a CrcConfig(...) call")
             vals = {}
             for f, a in zip(fields, v.args):
-                vals[f] = ev(a, {})
+                vals[f] = ev(a, menv)
             for kw in v.keywords:
-                vals[kw.arg] = ev(kw.value, {})
-            if set(vals) != set(fields):
+                vals[kw.arg] = ev(kw.value, menv)
+            if set(vals) != set(want) or not all(isinstance(vals[f], int) for f in want):
                 raise Unknown(f"entry {name}: fields {sorted(vals)}")
             rows.append((name, labels.get(name, name.lower()), int(vals["polynomial"]), int(vals["initial_value"]),
                          int(vals["final_xor"]), bool(vals["reverse"])))
@@ -145,7 +148,9 @@ def gen_crc_table() -> None:
                                      "initial_value": hex(vals["initial_value"]), "final_xor": hex(vals["final_xor"]),
                                      "reverse": bool(vals["reverse"])}
     except (Unknown, OSError, SyntaxError) as exc:
+        # opaque stand-in: an empty table makes `crc_table_standard` fail (broken obligation -> failing-input search), never exit 2
         meta["error"] = str(exc)
+        meta["entries"] = {}
         rows = []
     out = ["namespace SpsdkVerif.Generated.CrcTable", "",
            "/-- one row of `CRC_ALGORITHMS` (spsdk/crypto/crc.py): the arguments handed to `crcmod.mkCrcFun` -/",
@@ -160,61 +165,83 @@ def gen_crc_table() -> None:
 
 
 # ---------------------------------------------------------------------------------------------- symmetric constants
-def _class_consts(cls):
-    env = {}
-    for st in cls.body:
-        if isinstance(st, ast.Assign) and len(st.targets) == 1 and isinstance(st.targets[0], ast.Name):
+def _len_cmp(n, menv, cls, subst=None):
+    """`len(NAME) != E` / `E != len(NAME)` / `not len(NAME) == E`  ->  (NAME, value of E) or None"""
+    neg = False
+    if isinstance(n, ast.UnaryOp) and isinstance(n.op, ast.Not):
+        n, neg = n.operand, True
+    if not (isinstance(n, ast.Compare) and len(n.ops) == 1):
+        return None
+    if not ((isinstance(n.ops[0], ast.NotEq) and not neg) or (isinstance(n.ops[0], ast.Eq) and neg)):
+        return None
+    for lhs, rhs in ((n.left, n.comparators[0]), (n.comparators[0], n.left)):
+        if isinstance(lhs, ast.Call) and dotted(lhs.func) == "len" and len(lhs.args) == 1 and isinstance(lhs.args[0], ast.Name):
             try:
-                v = ev(st.value, env)
+                v = ev(rhs, menv, cls, subst=subst)
             except Unknown:
-                continue
-            env[st.targets[0].id] = v
-            env[cls.name + "." + st.targets[0].id] = v
-    return env
+                return None
+            if isinstance(v, int) and not isinstance(v, bool):
+                return lhs.args[0].id, v
+    return None
 
 
-def _len_checks(fn, env):
-    """[(param, n)] for every `if len(param) != n: raise` in source order."""
+def _len_checks(fn, menv, cls):
+    """[(param, n)] for every length test that guards a `raise`, in source order (any spelling of the bound)."""
     out = []
     for n in ast.walk(fn):
-        if isinstance(n, ast.Compare) and len(n.ops) == 1 and isinstance(n.ops[0], ast.NotEq) \
-                and isinstance(n.left, ast.Call) and dotted(n.left.func) == "len" and isinstance(n.left.args[0], ast.Name):
-            try:
-                out.append((n.left.args[0].id, int(ev(n.comparators[0], env))))
-            except Unknown:
-                pass
+        if isinstance(n, ast.If) and any(isinstance(x, ast.Raise) for x in ast.walk(n)):
+            tests = n.test.values if isinstance(n.test, ast.BoolOp) and isinstance(n.test.op, ast.Or) else [n.test]
+            for t in tests:
+                r = _len_cmp(t, menv, cls)
+                if r is not None:
+                    out.append(r)
     return out
 
 
-def _ecb_input(fn, env):
+def _ecb_input(fn, menv, cls):
     for n in ast.walk(fn):
-        if isinstance(n, ast.Call) and (dotted(n.func) or "").endswith("aes_ecb_encrypt") and len(n.args) == 2:
-            return ev(n.args[1], env)
+        if isinstance(n, ast.Call) and (dotted(n.func) or "").endswith("aes_ecb_encrypt"):
+            arg = n.args[1] if len(n.args) >= 2 else next((k.value for k in n.keywords if k.arg == "plain_data"), None)
+            if arg is None:
+                continue
+            local = {}
+            # a local alias assigned once from a constant expression (`data = KeyStore.X` then `aes_ecb_encrypt(key, data)`)
+            if isinstance(arg, ast.Name):
+                for st in ast.walk(fn):
+                    if isinstance(st, ast.Assign) and len(st.targets) == 1 and isinstance(st.targets[0], ast.Name) and st.targets[0].id == arg.id:
+                        arg = st.value
+                        break
+            return ev(arg, menv, cls, local=local)
     raise Unknown("no aes_ecb_encrypt(key, const) call")
 
 
-def _default_iv(fn, env):
+def _default_iv(fn, menv, subst):
     """(default IV length, required IV bits) of a `*_cbc_*` wrapper, or Unknown."""
     dflt = bits = None
     for n in ast.walk(fn):
         if isinstance(n, ast.Assign) and isinstance(n.targets[0], ast.Name) and n.targets[0].id == "init_vector":
             v = n.value
             if isinstance(v, ast.BoolOp) and isinstance(v.op, ast.Or) and len(v.values) == 2:
-                b = ev(v.values[1], env)
+                b = ev(v.values[1], menv, subst=subst)
             elif isinstance(v, ast.IfExp):
-                b = ev(v.orelse, env)
+                b = ev(v.orelse, menv, subst=subst)
             else:
                 raise Unknown("init_vector assignment shape")
-            if not isinstance(b, bytes) or any(b):
+            if not isinstance(b, (bytes, bytearray)) or any(b):
                 raise Unknown("default IV is not zero bytes")
             dflt = len(b)
-        if isinstance(n, ast.Compare) and len(n.ops) == 1 and isinstance(n.ops[0], ast.NotEq) \
-                and isinstance(n.left, ast.BinOp) and isinstance(n.left.op, ast.Mult) \
-                and isinstance(n.left.left, ast.Call) and dotted(n.left.left.func) == "len" \
-                and dotted(n.left.left.args[0]) == "init_vector":
-            bits = int(ev(n.comparators[0], env))
-            if int(ev(n.left.right, env)) != 8:
-                raise Unknown("IV length factor")
+        if isinstance(n, ast.Compare) and len(n.ops) == 1 and isinstance(n.ops[0], ast.NotEq):
+            for lhs, rhs in ((n.left, n.comparators[0]), (n.comparators[0], n.left)):
+                if isinstance(lhs, ast.BinOp) and isinstance(lhs.op, ast.Mult):
+                    for ln, fac in ((lhs.left, lhs.right), (lhs.right, lhs.left)):
+                        if isinstance(ln, ast.Call) and dotted(ln.func) == "len" and ln.args and dotted(ln.args[0]) == "init_vector":
+                            f, v = ev(fac, menv, subst=subst), ev(rhs, menv, subst=subst)
+                            if isinstance(f, int) and isinstance(v, int) and f > 0 and v % f == 0:
+                                bits = v // f * 8          # required length in bytes * 8
+                elif isinstance(lhs, ast.Call) and dotted(lhs.func) == "len" and lhs.args and dotted(lhs.args[0]) == "init_vector":
+                    v = ev(rhs, menv, subst=subst)
+                    if isinstance(v, int):
+                        bits = v * 8
     if dflt is None or bits is None:
         raise Unknown("default IV / IV check not found")
     return dflt, bits
@@ -239,52 +266,58 @@ def gen_sym_consts() -> None:
     try:
         tree = parse(KS)
         cls = find_class(tree, "KeyStore")
+        kenv = ModuleEnv(tree)
     except (OSError, SyntaxError):
-        cls = None
-    env = _class_consts(cls) if cls is not None else {}
+        cls, kenv = None, None
     for cname, lname, dflt in (("KEY_STORE_SIZE", "keyStoreSize", 1424), ("SBKEK_SIZE", "sbkekSize", 32),
                                ("OTP_MASTER_KEY_SIZE", "otpMasterKeySize", 32), ("OTFAD_KEY_SIZE", "otfadKeySize", 16)):
-        if isinstance(env.get(cname), int):
-            put(lname, "Nat", str(env[cname]), env[cname])
-        else:
-            put(lname, "Nat", str(dflt), dflt, "class constant not found")
+        try:
+            if cls is None:
+                raise Unknown("class KeyStore not found")
+            v = kenv.cls("KeyStore").value(cname)
+            if not isinstance(v, int) or isinstance(v, bool):
+                raise Unknown("not an int")
+            put(lname, "Nat", str(v), v)
+        except (Unknown, NotConst) as exc:
+            put(lname, "Nat", str(dflt), dflt, f"class constant not readable: {exc}")
     for fname, (cn, cdflt, ln, ldflt) in ks_expect.items():
         fn = find_fun(cls, fname) if cls is not None else None
         try:
             if fn is None:
                 raise Unknown("function not found")
-            b = _ecb_input(fn, env)
-            if not isinstance(b, bytes):
+            b = _ecb_input(fn, kenv, "KeyStore")
+            if not isinstance(b, (bytes, bytearray)):
                 raise Unknown("not bytes")
-            put(cn, "List UInt8", lean_bytes(b), b.hex())
+            put(cn, "List UInt8", lean_bytes(bytes(b)), bytes(b).hex())
         except Unknown as exc:
             put(cn, "List UInt8", lean_bytes(cdflt), cdflt.hex(), str(exc))
-        chk = _len_checks(fn, env) if fn is not None else []
+        chk = _len_checks(fn, kenv, "KeyStore") if fn is not None else []
         if len(chk) == 1:
             put(ln, "Nat", str(chk[0][1]), chk[0][1])
         else:
             put(ln, "Nat", str(ldflt), ldflt, f"length checks found: {chk}")
     fn = find_fun(cls, "derive_otfad_kek_key") if cls is not None else None
-    chk = dict(_len_checks(fn, env)) if fn is not None else {}
+    chk = dict(_len_checks(fn, kenv, "KeyStore")) if fn is not None else {}
     for p, ln, d in (("master_key", "otfadKekMasterKeyLen", 32), ("otfad_input", "otfadKekInputLen", 16)):
         if p in chk:
             put(ln, "Nat", str(chk[p]), chk[p])
         else:
             put(ln, "Nat", str(d), d, "length check not found")
 
-    # --- symmetric.py default IVs
-    senv = {"algorithms.AES.block_size": 128, "algorithms.SM4.block_size": 128}
+    # --- symmetric.py default IVs (library class attributes are substituted by the values the harness re-checks live)
+    subst = {"algorithms.AES.block_size": 128, "algorithms.SM4.block_size": 128}
     try:
         stree = parse(SYM)
+        senv = ModuleEnv(stree)
     except (OSError, SyntaxError):
-        stree = None
+        stree, senv = None, None
     for fname, lean in (("aes_cbc_encrypt", "aesCbcEnc"), ("aes_cbc_decrypt", "aesCbcDec"),
                         ("sm4_cbc_encrypt", "sm4CbcEnc"), ("sm4_cbc_decrypt", "sm4CbcDec")):
         fn = find_fun(stree, fname) if stree is not None else None
         try:
             if fn is None:
                 raise Unknown("function not found")
-            d, bits = _default_iv(fn, senv)
+            d, bits = _default_iv(fn, senv, subst)
             put(lean + "DefaultIvLen", "Nat", str(d), d)
             put(lean + "IvBits", "Nat", str(bits), bits)
         except Unknown as exc:
@@ -309,13 +342,18 @@ def gen_sym_consts() -> None:
     # --- hash.py: EnumHashAlgorithm members
     members = []
     try:
-        enum = find_class(parse(HASH), "EnumHashAlgorithm")
+        htree2 = parse(HASH)
+        henv = ModuleEnv(htree2)
+        enum = find_class(htree2, "EnumHashAlgorithm")
         for st in (enum.body if enum is not None else []):
-            if isinstance(st, ast.Assign) and isinstance(st.targets[0], ast.Name) and isinstance(st.value, ast.Tuple) and len(st.value.elts) >= 2:
-                tag, label = ast.literal_eval(st.value.elts[0]), ast.literal_eval(st.value.elts[1])
-                if isinstance(tag, int) and isinstance(label, str):
-                    members.append((st.targets[0].id, tag, label))
-    except (OSError, SyntaxError, ValueError):
+            if isinstance(st, ast.Assign) and isinstance(st.targets[0], ast.Name):
+                try:
+                    v = ev(st.value, henv, "EnumHashAlgorithm")
+                except Unknown:
+                    continue
+                if isinstance(v, tuple) and len(v) >= 2 and isinstance(v[0], int) and isinstance(v[1], str):
+                    members.append((st.targets[0].id, v[0], v[1]))
+    except (OSError, SyntaxError):
         members = []
     put("hashEnum", "List (String × Nat × String)", "[" + ", ".join(f'("{n}", {t}, "{lab}")' for n, t, lab in members) + "]",
         [list(m) for m in members], None if members else "EnumHashAlgorithm not found")
@@ -352,7 +390,7 @@ def iexpr(node, env):
         d = dotted(node)
         if d is not None and d in env:
             return env[d]
-        raise Unknown("name " + str(d))
+        return _delegate(node, env)          # module / class constant, by value
     if isinstance(node, ast.List) or isinstance(node, ast.Tuple):
         return [iexpr(e, env) for e in node.elts]
     if isinstance(node, ast.BinOp):
@@ -368,7 +406,8 @@ def iexpr(node, env):
         a, b = iexpr(node.left, env), iexpr(node.comparators[0], env)
         op = node.ops[0]
         table = {ast.Eq: lambda: a == b, ast.NotEq: lambda: a != b, ast.Lt: lambda: a < b, ast.LtE: lambda: a <= b, ast.Gt: lambda: a > b,
-                 ast.GtE: lambda: a >= b, ast.In: lambda: a in b, ast.NotIn: lambda: a not in b}
+                 ast.GtE: lambda: a >= b, ast.In: lambda: a in b, ast.NotIn: lambda: a not in b,
+                 ast.Is: lambda: a == b, ast.IsNot: lambda: a != b}      # enum members / None: identity = equality here
         for k, f in table.items():
             if isinstance(op, k):
                 return f()
@@ -404,13 +443,25 @@ def iexpr(node, env):
             raise Unknown("bytes(...)")
         if d == "len" and len(args) == 1:
             return len(args[0])
-        raise Unknown("call " + str(d))
-    raise Unknown(type(node).__name__)
+        return _delegate(node, env)
+    return _delegate(node, env)
+
+
+def _delegate(node, env):
+    """anything the little interpreter does not know: try to evaluate it as a constant expression over the current locals"""
+    menv = env.get("__menv__")
+    if menv is None:
+        raise Unknown(type(node).__name__)
+    local = {k: v for k, v in env.items() if isinstance(k, str) and k.isidentifier()}
+    try:
+        return menv.eval(node, local=local)
+    except NotConst as exc:
+        raise Unknown(str(exc))
 
 
 def iblock(stmts, env):
     for st in stmts:
-        if isinstance(st, ast.Expr) and isinstance(st.value, ast.Constant):
+        if isinstance(st, ast.Pass) or (isinstance(st, ast.Expr) and isinstance(st.value, ast.Constant)):
             continue
         if isinstance(st, ast.If):
             iblock(st.body if iexpr(st.test, env) else st.orelse, env)
@@ -460,7 +511,8 @@ def gen_sb31_kdf() -> None:
         members = [st.targets[0].id for st in (enum.body if enum else []) if isinstance(st, ast.Assign) and isinstance(st.targets[0], ast.Name)]
         if sorted(members) != ["BLK", "KDK"]:
             raise Unknown(f"KeyDerivationMode members {members}")
-        genv = {"Endianness.LITTLE.value": "little", "Endianness.BIG.value": "big", "KeyDerivationMode": frozenset(members)}
+        genv = {"Endianness.LITTLE.value": "little", "Endianness.BIG.value": "big", "KeyDerivationMode": frozenset(members),
+                "__menv__": ModuleEnv(tree)}
         for m in members:
             genv["KeyDerivationMode." + m] = m
         for dc in KDF_CONSTS:
